@@ -920,6 +920,12 @@ def m_set(it, s, meth, args, kwargs):
         return from_z3(k, et)
     if meth == "issubset":
         return VBool(z3.IsSubset(s.z, a[0].z))
+    if meth == "intersection":
+        return VSet(z3.SetIntersect(s.z, a[0].z), et)
+    h = it.reg.boundary.get("set." + meth)
+    if h is not None:
+        # methods of a set subclass (e.g. EmptyableSet.when_next_empty), modelled by the property module
+        return h(it, s, meth, args, kwargs, None)
     raise OutOfSubset(f"set method {meth}")
 
 
